@@ -8,6 +8,9 @@ use fst::automaton::{Levenshtein, LevenshteinError};
 use fst::{Automaton, IntoStreamer, Set, Streamer};
 
 const ALPHA: [char; 8] = ['a', 'é', 'ê', '☃', '☄', '😀', '😁', '𝄞'];
+/// pairs that share their CONTINUATION bytes but differ in the lead byte (é C3 A9 / © C2 A9, ☃ E2 98 83 / U+1603 E1 98 83,
+/// 😀 F0 9F 98 80 / U+5F600 F1 9F 98 80) or in a middle byte (😀 / U+1D600 F0 9D 98 80)
+const ALPHA2: [char; 8] = ['a', 'é', '©', '☃', '\u{1603}', '😀', '\u{1D600}', '\u{5F600}'];
 
 fn strings(alpha: &[char], maxlen: usize) -> Vec<String> {
     let mut out = vec![String::new()];
@@ -182,7 +185,67 @@ pub fn run(ctx: &Ctx) -> i32 {
     sorted.sort();
     let set = Set::from_iter(sorted.iter()).expect("set of all keys");
     let nq = queries.len();
+    let queries2 = strings(&ALPHA2, 3);
+    let keys2 = strings(&ALPHA2, 3);
+    let mut sorted2: Vec<Vec<u8>> = keys2.iter().map(|k| k.as_bytes().to_vec()).collect();
+    sorted2.sort();
+    let set2 = Set::from_iter(sorted2.iter()).expect("set of all keys (second alphabet)");
     let ev = ctx.par(|shard, n, ev| {
+        for (qi, q) in queries2.iter().enumerate() {
+            if qi % n != shard {
+                continue;
+            }
+            for d in 0..=dmax {
+                let before = ev.evaluations;
+                check_query(q, d, &keys2, Some(&set2), ev);
+                ev.distinct_extra += ev.evaluations - before;
+                ev.count("queries:second-alphabet");
+            }
+        }
+        // one automaton with more than 65536 states (only reachable through new_with_limit)
+        if shard == n - 1 {
+            let q: String = "the quick brown fox jumps over the lazy dog and keeps running to the bank".chars().take(72).collect();
+            ev.fps.insert(crate::rng::fnv(q.as_bytes()));
+            match guard(|| Levenshtein::new_with_limit(&q, 3, 1_000_000)) {
+                Ok(Ok(lev)) => {
+                    ev.count("build:huge-automaton-Ok");
+                    let mut rng = Rng::new(ctx.seed, 0x17_b16);
+                    let qc: Vec<char> = q.chars().collect();
+                    let mut bad = 0;
+                    for i in 0..600 {
+                        let mut k = qc.clone();
+                        for _ in 0..(i % 6) {
+                            match rng.below(3) {
+                                0 if !k.is_empty() => {
+                                    let p = rng.usize(k.len());
+                                    k.remove(p);
+                                }
+                                1 => {
+                                    let p = rng.usize(k.len() + 1);
+                                    k.insert(p, *rng.pick(&['x', 'e', ' ', 'é']));
+                                }
+                                _ if !k.is_empty() => {
+                                    let p = rng.usize(k.len());
+                                    k[p] = *rng.pick(&['x', 'e', ' ', 'é']);
+                                }
+                                _ => {}
+                            }
+                        }
+                        let k: String = k.into_iter().collect();
+                        let want = levref::distance(&q, &k) <= 3;
+                        let (got, _) = run_lev(&lev, k.as_bytes());
+                        ev.eval(None);
+                        ev.distinct_extra += 1;
+                        if got != want && bad < 2 {
+                            bad += 1;
+                            ev.violate("lev-mismatch", format!("new_with_limit(72-char query, 3, 1000000) {} {:?} but the edit distance is {}", if got { "accepts" } else { "rejects" }, k, levref::distance(&q, &k)), J::s(k.clone()));
+                        }
+                    }
+                }
+                Ok(Err(_)) => ev.count("build:huge-automaton-TooManyStates"),
+                Err(p) => ev.violate("lev-panic", format!("new_with_limit(72-char query, 3, 1000000) panicked: {}", p), J::Null),
+            }
+        }
         for (qi, q) in queries.iter().enumerate() {
             if qi % n != shard {
                 continue;
@@ -203,7 +266,7 @@ pub fn run(ctx: &Ctx) -> i32 {
         }
         // random longer queries/keys over the alphabet + ASCII + other scripts
         let mut rng = Rng::new(ctx.seed, 0xC17 + shard as u64);
-        let wide: Vec<char> = "abcxyz09 éêèëñüßжяЖ☃☄★日本語😀😁🙂𝄞𝄢\u{7f}\u{80}\u{7ff}\u{800}\u{ffff}\u{10000}\u{10ffff}".chars().collect();
+        let wide: Vec<char> = "abcxyz09 éêèëñüß©жяЖ☃☄★\u{1603}日本語😀😁🙂\u{1D600}\u{5F600}𝄞𝄢\u{7f}\u{80}\u{7ff}\u{800}\u{ffff}\u{10000}\u{10ffff}".chars().collect();
         let nrand = ctx.tier.pick(300, 6000) / n;
         for _ in 0..nrand {
             let ql = rng.usize(9);
@@ -261,7 +324,7 @@ pub fn run(ctx: &Ctx) -> i32 {
         ev,
         Spec {
             level: "exploration",
-            rule: "one evaluation = one (query, distance, key) triple: is_match after feeding the key's UTF-8 bytes to Levenshtein::new(q,d) compared with (edit distance over scalar values <= d); ALL q in A^<=3 (585; thorough A^<=4 = 4681) x d in {0,1,2} x ALL k in A^<=4 (4681) for A = {a, é, ê, ☃, ☄, 😀, 😁, 𝄞} (1-4 byte encodings, pairs sharing 1, 2 and 3 leading bytes), plus Set::search over the set of all keys for every (q,d), random queries/keys up to 8 scalars over ASCII + Latin/Cyrillic/CJK/emoji/boundary code points with d<=3, long queries against the default state limit, and new_with_limit series (limit 1.. first success + 2: error payload == limit, monotone, behaviour equal to the default-limit automaton, no state id >= limit); non-trivial = every triple; distinct = by construction / fingerprint of (q,d)",
+            rule: "one evaluation = one (query, distance, key) triple: is_match after feeding the key's UTF-8 bytes to Levenshtein::new(q,d) compared with (edit distance over scalar values <= d); ALL q in A^<=3 (585; thorough A^<=4 = 4681) x d in {0,1,2} x ALL k in A^<=4 (4681) for A = {a, é, ê, ☃, ☄, 😀, 😁, 𝄞} (1-4 byte encodings, pairs sharing 1, 2 and 3 leading bytes), the same exhaustively (q,k in A2^<=3) for A2 = {a, é, ©, ☃, U+1603, 😀, U+1D600, U+5F600} (pairs sharing their continuation bytes but differing in the lead or a middle byte), one automaton with more than 65536 states (72-character query, d=3, limit 10^6) probed with 600 edited copies of the query, plus Set::search over the set of all keys for every (q,d), random queries/keys up to 8 scalars over ASCII + Latin/Cyrillic/CJK/emoji/boundary code points with d<=3, long queries against the default state limit, and new_with_limit series (limit 1.. first success + 2: error payload == limit, monotone, behaviour equal to the default-limit automaton, no state id >= limit); non-trivial = every triple; distinct = by construction / fingerprint of (q,d)",
             assumptions: vec!["keys are valid UTF-8 (the statement's domain)".into()],
             floors: vec![("triples:within-distance", 10_000), ("triples:beyond-distance", 10_000), ("triples:distinct-scalars-sharing-a-utf8-prefix", 10_000), ("set-searches", 1000), ("limit-probes:TooManyStates", 100), ("limit-probes:Ok", 30)],
             exhaustive: Some(true),
